@@ -78,7 +78,8 @@ theorem c04_filter_eq (al : Allowlist) (ks : List Cid) : filterKeys al ks = ks.f
 
 /-- No store write, exchange request, exchange notification or returned block carries a CID the
 validator rejects — for every history of AddBlock / AddBlocks / GetBlock / GetBlocks / DeleteBlock calls
-(single, batched, session or not: the same functions), every initial store and every exchange behaviour. -/
+(single, batched, session or not: the same functions), every initial store, every exchange behaviour and every
+pattern of blockstore write failures (each `Op` carries its `pf`; attempted writes count too: `Ev.putFail`). -/
 theorem c04_no_invalid_io (cfg : Cfg) (hfix : cfg.fixed = true) (ops : List Op) (st : Store) :
     ∀ ev ∈ (run cfg st ops).2, evOk cfg.al ev = true :=
   (run_ok cfg hfix ops st).1
@@ -89,9 +90,9 @@ theorem c04_store_ok (cfg : Cfg) (hfix : cfg.fixed = true) (ops : List Op) (st :
   (run_ok cfg hfix ops st).2 hs
 
 /-- AddBlocks is all-or-nothing: one rejected CID anywhere in the batch ⇒ nothing is written or announced. -/
-theorem c04_addBlocks_all_or_nothing (cfg : Cfg) (st : Store) (bs : List Blk) (b : Blk) (hb : b ∈ bs)
+theorem c04_addBlocks_all_or_nothing (cfg : Cfg) (st : Store) (bs : List Blk) (pf : Option Nat) (b : Blk) (hb : b ∈ bs)
     (hbad : valid cfg.al b.1 = false) :
-    (addBlocks cfg st bs).1 = st ∧ (addBlocks cfg st bs).2.2 = [] := by
+    (addBlocks cfg st bs pf).1 = st ∧ (addBlocks cfg st bs pf).2.2 = [] := by
   unfold addBlocks
   cases hf : firstErr cfg.al bs with
   | some e => simp
@@ -99,9 +100,9 @@ theorem c04_addBlocks_all_or_nothing (cfg : Cfg) (st : Store) (bs : List Blk) (b
 
 /-- GetBlock / AddBlock with a rejected CID touch nothing. -/
 theorem c04_rejected_single (cfg : Cfg) (st : Store) (c : Cid) (d : Data) (ans : Option Blk) (nOk : Bool)
-    (hbad : valid cfg.al c = false) :
-    getBlock cfg st c ans nOk = (st, .verr (validate cfg.al c.code c.len), []) ∧
-    addBlock cfg st (c, d) = (st, .verr (validate cfg.al c.code c.len), []) := by
+    (pf : Option Nat) (hbad : valid cfg.al c = false) :
+    getBlock cfg st c ans nOk pf = (st, .verr (validate cfg.al c.code c.len), []) ∧
+    addBlock cfg st (c, d) pf = (st, .verr (validate cfg.al c.code c.len), []) := by
   unfold getBlock addBlock
   cases hv : validate cfg.al c.code c.len <;> simp_all [valid]
 
